@@ -444,6 +444,8 @@ def main():
         stats[r["corr"]] = stats.get(r["corr"], 0) + 1
         o = r["oracle"].split(":", 1)[0]
         stats[o] = stats.get(o, 0) + 1
+        if r["oracle"] == "ok:indomain":
+            stats["indomain"] = stats.get("indomain", 0) + 1
         if r["corr"] == "DIFF":
             diffs.append(r)
         if o == "FAIL":
@@ -514,6 +516,7 @@ def main():
             "rule": spec.rule, "samples": samples, "exhaustive": bool(meta.get("exhaustive", False)),
             "correspondence": {"same": stats["same"], "different": stats["DIFF"], "unmodelled": stats["unmodelled"]},
             "oracle": {"ok": stats["ok"], "fail": stats["FAIL"], "not_applicable": stats["na"]},
+            "sources_inside_round_trip_theorem_domain": stats.get("indomain", 0),
             "input_distribution": meta.get("distribution", {}),
             "known_findings_seen": {k: len(v) for k, v in known_hits.items()},
             "search_cases": searched, "build_s": build.get("build_s", 0),
